@@ -392,54 +392,72 @@ def r3(ctx, retsets):
     dels = fn.calls("pfx_table_del_elem")
     ctx.floor("C02.R3", len(dels), 1)
     d = dels[0]
-    G = es.Guards(fn, d)
-    own = bool(G.find_eq(lambda x: x[0] == "load" and vf.last_field(x[1]) == "data_elem.socket", lambda y: y == ("arg", 3)))
-    ctx.check(own, "C02.R3", "delete-iff-own-source", d.loc(), "pfx_table_del_elem is reached only under ary[i].socket == socket", key="C02.R3:own")
-    idx = vf.expr(fn, d.args[1])
-    # after a successful deletion control returns to a test of the SAME slot (index not advanced)
-    loops = fn.loops()
-    inner = [(h, body) for h, body in loops.items() if d.block.id in body]
-    good = False
-    detail = "no loop around the deletion"
-    if inner:
-        h, body = min(inner, key=lambda hb: len(hb[1]))
-        # the innermost loop's header must test the same index value as the deletion used (no increment on its back edge)
-        hb = fn.blocks[h]
-        tests = [i for b in body for i in fn.blocks[b].insts if i.op == "icmp" and any(
-            x[0] == "load" and vf.last_field(x[1]) == "data_elem.socket" for x in (vf.expr(fn, i["a"]), vf.expr(fn, i["b"])))]
-        same_slot = False
-        for t in tests:
-            for x in (vf.expr(fn, t["a"]), vf.expr(fn, t["b"])):
-                if x[0] == "load" and vf.last_field(x[1]) == "data_elem.socket":
-                    e = x[1]
-                    while e[0] == "fld":
-                        e = e[1]
-                    if e[0] in ("idx", "ptradd") and e[2] == idx:
-                        same_slot = True
-        # and the index phi is not advanced inside this innermost loop
-        adv = [i for b in body for i in fn.blocks[b].insts if i.op == "add" and idx in (vf.expr(fn, i["a"]), vf.expr(fn, i["b"]))]
-        good = same_slot and not adv and len(body) < len(max(loops.values(), key=len))
-        detail = "innermost loop re-tests slot %s: %s, index advanced inside it: %s" % (vf.show(idx), same_slot, bool(adv))
-    ctx.check(good, "C02.R3", "same-slot-re-examined", d.loc(), detail, key="C02.R3:same-slot")
-    # outer index loop covers 0..len-1
-    il = [L for L in es.index_loops(fn) if L["bound"][0] == "load" and vf.last_field(L["bound"][1]) == "node_data.len" and L["init"] == "#0" and d.block.id in L["body"]]
-    ctx.check(bool(il), "C02.R3", "all-slots-visited", d.loc(), "the slot index runs from 0 to data->len - 1", key="C02.R3:all-slots")
+    # evaluated on small nodes instead of matched against one loop shape: the node holds the listed records (O = of the socket being
+    # removed, x = of another socket); the walk over its element array is followed with pfx_table_del_elem modelled as 'element k
+    # leaves, the later ones move down, the length drops by one'.  What must be left are exactly the x records, in their order.
+    OWN, OTHER = 1000, 2000
+
+    def slot_of(pe):
+        e = pe
+        while isinstance(e, tuple) and e[0] == "fld":
+            e = e[1]
+        if isinstance(e, tuple) and e[0] in ("idx", "ptradd") and isinstance(e[2], tuple) and e[2][0] == "c":
+            return e[2][1]
+        return None
+    bad = []
+    scen = ("O", "OO", "OOO", "xO", "Ox", "OxO", "xOOx", "OOxOO", "xxx", "OxxO")
+    for sc in scen:
+        model = [OWN if ch == "O" else OTHER for ch in sc]
+        dead = []
+        state = {"dels": 0, "torn": False}
+
+        def values(pe, model=model):
+            f = vf.last_field(pe)
+            if f == "node_data.len":
+                return len(model)
+            if f == "data_elem.socket":
+                k = slot_of(pe)
+                if k is not None and 0 <= k < len(model):
+                    return model[k]
+            return None
+
+        def cl(inst, E, st, model=model, dead=dead, state=state):
+            if inst.op == "call" and inst.callee == "pfx_table_del_elem":
+                if int(st.get("del", "0")) != state["dels"]:
+                    state["torn"] = True      # the walk was not followed along one path
+                    return flow.KILL
+                k = flow.av_single(E.val(inst.args[1]))
+                if k is None or not (0 <= k < len(model)):
+                    dead.append(("?", k))
+                    return flow.KILL
+                dead.append((k, model[k]))
+                del model[k]
+                state["dels"] += 1
+                return [(["=del:%d" % state["dels"]], {inst.ref: flow.av_in(0)})]
+            if inst.op == "call" and inst.callee in ("trie_remove", "pfx_table_remove_id"):
+                return flow.KILL      # the node's own array has been dealt with
+            return None
+        es.count_effects(fn, pdb, cl, retsets, cell={3: OWN}, values=values, cap=64)
+        if state["torn"]:
+            raise AnalysisBroken("pfx_table_remove_id: the walk over a node's elements could not be followed along a single path")
+        want = [OTHER] * sc.count("x")
+        if model != want or any(v != OWN for k, v in dead):
+            bad.append("node [%s]: deleted %s, left %s" % (sc, ["slot %s (%s)" % (k, "own" if v == OWN else "foreign" if v == OTHER else v) for k, v in dead],
+                                                          "".join("O" if v == OWN else "x" for v in model)))
+    ctx.check(not bad, "C02.R3", "same-slot-re-examined", d.loc(),
+              "; ".join(bad[:3]) if bad else "%d node contents (O = record of the socket, x = another socket's): every O and no x is deleted, "
+              "also when two O are neighbours (the slot a record moved into is examined again)" % len(scen), key="C02.R3:same-slot")
     # pull-up: decision table on the node returned by trie_remove
     tr = fn.calls("trie_remove")
     ctx.floor("C02.R3", len(tr), 1)
     t0 = tr[0]
     ROOT = ("load", ("arg", 1))
-    for which in ("root", "node", "other"):
-        def oracle(inst, pred, a, b, E):
-            if pred in ("eq", "ne"):
-                pair = {a[0] if a[0] != "call" else "call:" + a[1], b[0] if b[0] != "call" else "call:" + b[1]}
-                if "call:trie_remove" in pair:
-                    other = b if (a[0] == "call" and a[1] == "trie_remove") else a
-                    if other == ROOT:
-                        return (which == "root") if pred == "eq" else (which != "root")
-                    if other == ("arg", 2):
-                        return (which == "node") if pred == "eq" else (which != "node")
-            return None
+    # decided on pointer values, not on how the comparisons are written: the node is N, *root is N or another node, and
+    # trie_remove hands back the node it unlinked (N itself, or a node further down when N was refilled by a pull-up)
+    NV, RV, XV = 500, 600, 700
+    for which in ("root", "node", "other", "other-below-root"):
+        ptrs = {"root": (NV, NV), "node": (RV, NV), "other": (RV, XV), "other-below-root": (NV, XV)}[which]
+        oracle = None
         looped = []
         latch = {t for (t, h) in fn.back_edges()}
 
@@ -448,7 +466,7 @@ def r3(ctx, retsets):
                 if st.get("rm"):
                     looped.append("again")
                     return flow.KILL
-                return [(["rm"], {inst.ref: ("nin", frozenset([0]))})]
+                return [(["rm"], {inst.ref: flow.av_in(ptrs[1])})]
             if inst.op == "call" and inst.callee == "pfx_table_del_elem":
                 return flow.KILL if st.get("rm") else [([], {inst.ref: flow.av_in(0)})]
             if inst.op == "call" and inst.callee == "pfx_table_remove_id":
@@ -460,7 +478,7 @@ def r3(ctx, retsets):
                 return flow.KILL
             return None
         DLEN = None
-        outs, fl = es.count_effects(fn, pdb, classify, retsets, oracle=oracle)
+        outs, fl = es.count_effects(fn, pdb, classify, retsets, cell={2: NV, ("arg", 1): ptrs[0]})
         after = [o for o in outs if o["counts"].get("rm")]
         if which == "root":
             good = bool(after) and all(o["counts"].get("root_clear") == 1 and not o["counts"].get("recurse") and flow.av_single(o["ret"]) == 0 for o in after) and not looped
@@ -518,6 +536,7 @@ def r3(ctx, retsets):
     ctx.touch(sr)
     # every non-empty family is walked, whatever the other family looks like; a failed walk fails the call
     succ = pdb.enum_value("PFX_SUCCESS")
+    fams_seen = set()
     for has4 in (True, False):
         for has6 in (True, False):
             def values(pe, has4=has4, has6=has6):
@@ -529,6 +548,7 @@ def r3(ctx, retsets):
                 if inst.op == "call" and inst.callee == "pfx_table_remove_id":
                     e = E.path_expr(inst.args[1])
                     fam = e[2].split(".")[1] if e[0] == "fld" and e[1] == ("arg", 0) else "?"
+                    fams_seen.add(fam)
                     return [(["walk:" + fam], {inst.ref: flow.av_in(0)}), (["walk:" + fam, "=failed:" + fam], {inst.ref: flow.av_in(-1)})]
                 return None
             outs_f, fl_f = es.count_effects(sr, pdb, classify_f, retsets, values=values, cap=96)
@@ -541,19 +561,11 @@ def r3(ctx, retsets):
                       "%s:%d" % (sr.relfile, sr.line), "walks on the success paths: %s (expected %s); a failed walk returns PFX_ERROR: %s" % (
                           sorted({tuple(sorted(k for k in o["counts"] if k.startswith("walk:"))) for o in clean}), sorted(want),
                           sorted({str(flow.av_single(o["ret"])) for o in failed})), key="C02.R3:src_remove:families:%s:%s" % (has4, has6))
-    roots = set()
     for c in sr.calls("pfx_table_remove_id"):
-        e = vf.expr(sr, c.args[1])
-        if e[0] == "phi":
-            ph = sr.insts[e[1]]
-            roots |= {vf.last_field(vf.expr(sr, v)) for v, b in ph["inc"]}
-        elif e[0] == "fld":
-            roots.add(e[2])
         ctx.check(vf.expr(sr, c.args[3]) == ("arg", 1) and vf.expr(sr, c.args[0]) == ("arg", 0) and vf.expr(sr, c.args[4]) == ("c", 0), "C02.R3", "src_remove:args", c.loc(),
                   "walk starts at the family root, level 0, with the socket argument", key="C02.R3:src_remove:args")
-    lo = [L for L in es.index_loops(sr) if L["bound"] == ("c", 2) and L["init"] == "#0"]
-    ctx.check(roots == {"pfx_table.ipv4", "pfx_table.ipv6"} and bool(lo), "C02.R3", "src_remove:both-families", "%s:%d" % (sr.relfile, sr.line),
-              "families walked: %s" % sorted(roots), key="C02.R3:src_remove:families")
+    ctx.check(fams_seen == {"ipv4", "ipv6"}, "C02.R3", "src_remove:both-families", "%s:%d" % (sr.relfile, sr.line),
+              "families walked over all cells: %s" % sorted(fams_seen), key="C02.R3:src_remove:families")
 
 
 def r4(ctx):
@@ -615,6 +627,10 @@ def r4(ctx):
     # trie_remove: replace_node_data(root, child) followed by child.data = saved root data (the two nodes exchange data blocks)
     fn = pdb.fn("trie_remove")
     ctx.touch(fn)
+    if not fn.calls("trie_remove"):
+        raise AnalysisBroken("trie_remove no longer calls itself: the pull-up rules (which child is pulled up, what is exchanged, where the "
+                             "removal continues) are written for the recursive form - one level per call - and cannot be carried over to "
+                             "another form by matching; re-confirm them for the new form")
     reps = fn.calls("replace_node_data")
     ctx.floor("C02.R4", len(reps), 1)
 
